@@ -258,6 +258,11 @@ class ExtV:
 
     name: str
 
+    def __post_init__(self) -> None:
+        # the `operator` module re-exports the C module `_operator`: one object, two spellings of its name
+        if self.name.startswith("operator."):
+            object.__setattr__(self, "name", "_" + self.name)
+
     def __repr__(self) -> str:
         return f"<ext {self.name}>"
 
